@@ -262,7 +262,11 @@ class ExprMixin(ExecBase):
                 # a @property modelled by an expression over the object's fields: evaluated like code
                 # (heap reads get their validity facts), in the caller's spec/non-spec mode
                 npc = len(s2.pc)
-                outs = self.ev(_parse(cm.props[attr]), s2)
+                self.no_oblige += 1          # the model expression is total: no obligations, no exceptional forks
+                try:
+                    outs = self.ev(_parse(cm.props[attr]), s2)
+                finally:
+                    self.no_oblige -= 1
                 if len(outs) != 1:
                     raise Unsupported("property %s.%s forks" % (cls, attr))
                 for f in outs[0][0].pc[npc:]:
@@ -797,6 +801,15 @@ class ExprMixin(ExecBase):
         res = []
         for s, v in self.ev(e.value, st):
             res.extend(self.await_point(s, v, e))
+        if isinstance(e.value, ast.Call) and not self.spec:
+            # hooks of kind "after-await": run when the awaiting task resumes (ghost flags reset by the yield
+            # point can be re-armed here, e.g. 'the rebalance gate was just passed')
+            ftext = ast.unparse(e.value.func)
+            import fnmatch
+            for h in self.c.hooks:
+                if h[0] == "after-await" and fnmatch.fnmatchcase(ftext, h[1]):
+                    for s, _ in res:
+                        self.run_hook(s, h, e)
         return res
 
 
